@@ -225,6 +225,24 @@ def run_component(om, errs, ex, raw, B, short=True):
     return obs
 
 
+def on_worker_thread(fn):
+    """requests are served by worker threads, not by the thread that imported the framework and built the application"""
+    import threading
+    box = {}
+
+    def body():
+        try:
+            box['r'] = fn()
+        except BaseException as e:   # noqa  (Horizon, watchdog)
+            box['e'] = e
+    t = threading.Thread(target=body)
+    t.start()
+    t.join()
+    if 'e' in box:
+        raise box['e']
+    return box['r']
+
+
 def run_wsgi(om, errs, ex, raw, B, short=True):
     stream = ChoiceStream(ex, raw, _src_prefix(), short=short, menu_cap=6 if len(raw) > 30 else None)
     app = om.Ombott({'max_memfile_size': B})
@@ -239,7 +257,7 @@ def run_wsgi(om, errs, ex, raw, B, short=True):
     env = wsgi.environ('POST', '/p', input=stream, clen=cl_for(raw, B), chunked=True, ctype=CTYPE_MODE[0])
     obs = {'hang': False, 'err': None, 'client_error': False, 'content': None}
     try:
-        c = wsgi.call(app, env)
+        c = on_worker_thread(lambda: wsgi.call(app, env))
         if c.escaped is not None:
             obs['err'] = repr(c.escaped)
         elif c.code == 200:
